@@ -68,11 +68,15 @@ def run(chk, rng, replay=None):
             if op == "P":
                 # value, gradient, curvature of every model at the probe vs the exact recursion
                 bad = None
+                # on a set shrunk by sigma = 2^-k the gradient of a model is of the order of (values / sigma): its
+                # components are compared after multiplication by sigma (the curvature along a probe of size sigma and the
+                # value are of the order of the values themselves)
+                sigma = 2.0 ** -(h["spec"][6] if len(h["spec"]) > 6 else 0)
                 for (fval, fgrad, fcurv), (evalue, egrad, ecurv) in zip(pr[0], ex[1]):
                     n_probe += 1
-                    gs = max([1.0] + [abs(float(v)) for v in egrad] + [abs(float(evalue)), abs(float(ecurv))])
+                    gs = max([1.0] + [abs(float(v)) * sigma for v in egrad] + [abs(float(evalue)), abs(float(ecurv))])
                     t2 = TOLF * EPS * max(c, 1.0) * max(scale, gs)
-                    d = max([abs(fval - float(evalue)), abs(fcurv - float(ecurv))] + [abs(a - float(b)) for a, b in zip(fgrad, egrad)])
+                    d = max([abs(fval - float(evalue)), abs(fcurv - float(ecurv))] + [abs(a - float(b)) * sigma for a, b in zip(fgrad, egrad)])
                     worst = max(worst, d / (EPS * max(c, 1.0) * max(scale, gs)))
                     if d > t2:
                         bad = d
